@@ -281,23 +281,7 @@ def _nomem():
         return None
 
 
-def _plainout(out, dom):
-    """an outcome without references to key/value objects"""
-    def conv(x):
-        if type(x) is keys.HK:
-            return ("hk", x.n)
-        if type(x) is keys.TV:
-            return ("tv", x.n)
-        if isinstance(x, (list, tuple)):
-            return [conv(y) for y in x]
-        if isinstance(x, float) and x != x:
-            return "nan"
-        if isinstance(x, (str, bytes)):
-            return _detach(x)       # (a copy: the ledger counts references)
-        if isinstance(x, (int, float, bool)) or x is None:
-            return x
-        return type(x).__name__
-    return (out[0], conv(out[1]))
+_plainout = cmpfault._plainout
 
 
 PYCAP = 160         # allocation indices tried per operation (pyalloc mode)
@@ -607,6 +591,37 @@ def _one_stored(plan, dom, cfg, ctx, n, nalloc, L0, L1, h, base):
         except Violation as v2:
             raise Violation(dict(sig, oracle="unsound-later",
                                  by=v2.sig.get("oracle")), v2.detail)
+    # "usable" for a stored container includes being committed: what the
+    # failed call (and the follow-up) changed must reach the database
+    from ..world import SimConnection
+    mine = ops.listing(c, mapping)
+    try:
+        conn.commit()
+    except Exception as e:
+        raise Violation(dict(sig, oracle="commit-raised",
+                             exc=type(e).__name__),
+                        "%s; committing afterwards raised %r" % (what, e))
+    if not conn.hazards:
+        rt = SimConnection(conn.storage, "c").get(c._p_oid)
+        try:
+            theirs = ops.listing(rt, mapping)
+        except Exception as e:
+            raise Violation(dict(sig, oracle="reload", exc=type(e).__name__),
+                            "%s; a fresh reader of the committed container "
+                            "cannot list it: %r" % (what, e))
+        if not ops.same_value(mine, theirs):
+            raise Violation(dict(sig, oracle="reload", what_="contents"),
+                            "%s; after commit a fresh reader lists %r, the "
+                            "writer %r" % (what, theirs[:30], mine[:30]))
+        if is_tree(kind):
+            try:
+                common.structural(rt, dom, cfg, None, None,
+                                  check_sizes=False, who="reader")
+            except Violation as v3:
+                raise Violation(dict(sig, oracle="reload",
+                                     by=v3.sig.get("oracle")),
+                                "%s; after commit: %s" % (what, v3.detail))
+    mine = theirs = rt = None
     ctx.nontriv((kind, common.fam_class(dom.fam), opn, "stored", where,
                  min(n, 8), min(nalloc, 8), min(h, 4), verdict))
     ctx.interleaving((opn, "stored", where, verdict))
